@@ -52,6 +52,8 @@ func c11Scenarios(thorough bool) []*scenario {
 		mk("mgmt-mix[]", "", []cop{add("w", "x", false), ls}, []cop{rm("v")}, []cop{sa("u", true)}),
 		mk("add-race[]", "", []cop{add("w", "x", false), a("w", "y")}, []cop{add("w", "y", true), a("w", "x")}),
 		mk("two-updates[]", "", []cop{upd("u", "n1"), a("u", "n2")}, []cop{upd("u", "n2"), a("u", "n1")}),
+		// nothing changes the store: every answer is fixed, concurrent callers must not swap them
+		mk("logins-different-verdicts[]", "", []cop{a("u", "o")}, []cop{a("u", "x")}, []cop{a("root", "rootpw")}),
 	)
 	out = append(out,
 		mk("web-update-oldpw-vs-update[]", "", []cop{{Kind: "webupdate", User: "u", Pw: "o", NewPw: "w1"}}, []cop{upd("u", "n")}),
@@ -138,7 +140,7 @@ func applyModel(m lmodel, o cop) string {
 				return "true/ok"
 			}
 			return "false/err"
-		case "ldap":
+		case "ldap", "basic", "api-auth":
 			return fmt.Sprintf("%v", good)
 		}
 		return fmt.Sprintf("%v/%v", good, good && r.admin)
